@@ -224,6 +224,44 @@ def check_folder_never_undefined(ctx, prog, rule, tag=""):
     ctx.floor(rule.split(".")[0] + "." + rule.split(".")[1] + " folding functions scanned for undefined" + tag, n, 3)
 
 
+def check_folding_does_not_select_statements(ctx, prog):
+    """K13 (round 11, seed C04-11): the constant folder yields *values*.  Which statements the generator compiles must not
+    depend on it: compiling a statement has effects of its own at load time (a `{% block %}` is registered in the
+    template's block table, a macro is declared), so a branch that is skipped because its condition folds to false makes
+    `{% if false %}` differ from `{% if flag %}` with flag = false (`self.note()` is unknown, a child's override is not
+    seen).  In every function of the code generator, no call that compiles statements is control-dependent on a value
+    derived from `as_const()`."""
+    from . import c18 as _c18
+    G = "minijinja::compiler::codegen::CodeGenerator::"
+    n = 0
+    for k, f in prog.fns.items():
+        if not k.startswith(G) or f.kind == "closure":
+            continue
+        sinks = [c for c in f.calls() if _c18._is_stmt_sink(prog, c.name)]
+        if not sinks:
+            continue
+        for c in sinks:
+            n += 1
+            culprit = None
+            for (sb, taken) in flow.guards(f, c.bb):
+                cd = flow.cond_of(f, sb)
+                ops_ = []
+                if cd.kind == "discr" and cd.place is not None:
+                    ops_.append({"cp": cd.place})
+                elif cd.kind == "call":
+                    ops_ += [a for a in cd.call.args if "c" not in a]
+                elif cd.kind == "local" and cd.place is not None:
+                    ops_.append({"cp": cd.place})
+                for op in ops_:
+                    for o in flow.origins(f, op, through_calls=lambda q: 0 if q.name.endswith(("::is_true", "::as_ref", "::deref", "::is_some", "::is_none", "::unwrap_or", "::unwrap_or_default", "::map")) else None):
+                        if o.kind == "call" and o.call.name.endswith("::as_const"):
+                            culprit = f.where(sb)
+            ctx.ob("C04.K13.folding-does-not-select-what-is-compiled", "%s|%s@%d" % (k.split("::")[-1], c.name.split("::")[-1], n), culprit is None,
+                   "a statement is compiled (or not) depending on the result of as_const() - a literal condition then behaves "
+                   "differently from a variable with the same value (test at %s)" % culprit, f.where(c.bb))
+    return n
+
+
 def run(ctx):
     ctx.explain("C04: sibling cross-check by switch-arm summaries: (BinOpKind/CompareOpKind -> operator function and "
                 "operand order) extracted from the constant folder is compared with (kind -> Instruction) from the "
@@ -233,6 +271,8 @@ def run(ctx):
                 "the folder are only ever `.ok()`-ed.  Decides that both evaluators run the same function on the "
                 "same operands for every operator; it does not re-verify the operator functions themselves.")
     prog = ctx.prog
+    n13 = check_folding_does_not_select_statements(ctx, prog)
+    ctx.floor("C04.K13 statement-compiling calls of the generator", n13, 10)
     ev = prog.fn(EI)
     # ---- VM table: Instruction variant -> semantic calls
     disp = arms.enum_switches(prog, ev, INSTR)
